@@ -11,6 +11,8 @@ SRC = os.environ.get("GSVERIF_SRC", "/repo/src")
 if SRC not in sys.path[:1]:
     sys.path.insert(0, SRC)
 
+import math
+
 import numpy as np  # noqa: E402
 
 warnings.filterwarnings("ignore", category=DeprecationWarning)
@@ -59,6 +61,9 @@ def opt_bounds(name, dim):
     }.get(name, {})
 
 
+SPECIAL_VALUES = {"nu": [0.5, 1.0, 1.5, 2.0, 2.5, 3.0, 3.5, 4.5, 5.0, 10.0], "alpha": [0.5, 1.0, 1.5, 2.0, 3.0, 5.0], "hurst": [0.25, 0.5, 0.75]}
+
+
 def draw_opt(rng, name, dim, mode="interior"):
     """Draw optional arguments. mode: default | interior | edge (at/near bounds) | wide."""
     out = {}
@@ -100,6 +105,11 @@ def draw_opt(rng, name, dim, mode="interior"):
             out[arg] = float(rng.choice(cands))
         else:
             out[arg] = round(float(rng.uniform(lo_eff, hi_eff)), 4)
+            # every fourth draw is a "round" value (integers, half-integers, simple fractions): closed-form shortcuts and special
+            # cases in the code live exactly there and a continuous draw never hits them
+            special = [v for v in SPECIAL_VALUES.get(arg, []) if lo_eff <= v <= hi_eff and (v > lo or typ[0] == "c") and (v < hi or typ[1] == "c")]
+            if special and rng.random() < 0.25:
+                out[arg] = float(rng.choice(special))
     if name == "TPLStable" and "hurst" in out and "alpha" in out:
         # documented: 0 < H < alpha/2
         out["hurst"] = min(out["hurst"], round(0.45 * out["alpha"], 4))
@@ -184,5 +194,10 @@ def relerr(a, b, floor=0.0):
 
 
 def maxabs(x):
+    """max |x|; a NaN anywhere gives inf, so that `maxabs(a - b) > tol` can never pass silently on a non-finite result
+    (callers for which NaN on both sides is legitimate compare with NaN-aware equality first)."""
     x = np.asarray(x, dtype=float)
-    return float(np.max(np.abs(x))) if x.size else 0.0
+    if not x.size:
+        return 0.0
+    m = float(np.max(np.abs(x)))
+    return math.inf if m != m else m
